@@ -15,7 +15,7 @@ RULE = ('grid of operand values {0, +-1, +-2, 127, 128, 255, 256, -128, -255, -2
         'pseudo-random} (quick: 14 values) passed on the command line; every binary operator x every ordered pair, every unary operator and cast x every '
         'value, x operand types (int/int, byte/int, int/byte, byte/byte, bool/bool where legal) x positions (value printed; if-branch; '
         '!truth_is_defeat under try/stop and try/undo; and/or/not of conditions) x word sizes 2,3,4; an application is one operator applied to one '
-        'operand tuple in one position; every application is non-trivial; distinct by (program, position in grid)')
+        'operand tuple in one position; the unary/cast grid also over compile-time constants (19 values) and string length/truthiness at lengths 0..1024 incl. multiples of 256; every application is non-trivial; distinct by (program, position in grid)')
 ASSUMPTIONS = common.ISA_ASSUMPTIONS[:3] + ['expected results: two\'s-complement wrap-around at the word size, signed comparison, zero-extension of bytes, '
                                             'truncation to the low byte on narrowing, truthiness of non-zero values, strict 0/1 booleans, floor division']
 REQUIRED_HIDC_FUNCTIONS = ['codegen/generator:CodeGen.bool_expr_branch', 'codegen/generator:CodeGen.truth_is_defeat', 'codegen/generator:CodeGen.un_op_reg_arg']     # M-COV: deciding code never entered => inconclusive
@@ -171,7 +171,10 @@ UNARY = [
 ]
 
 
-def unary_program(storage='local'):
+CONST_VALS = [0, 1, -1, 2, 127, 128, 254, 255, 256, 257, 300, 511, 1000, -2, -128, -255, -256, -257, -300]
+
+
+def unary_program(storage='local', const_vals=None):
     body = [f'write({e}); write(\' \');' for e, _ in UNARY]
     body.append('byte nb = a is byte; int back = nb; write(back); write(\' \');')           # narrowing store, zero-extending load
     body.append('byte[] q = [a is byte, 1]; write(q[0] + q[1]); write(\' \');')
@@ -188,6 +191,11 @@ def unary_program(storage='local'):
     body.append('q8[(((a % 8) + 8) % 8 + 512) is byte] = \'z\'; write(q8[((a % 8) + 8) % 8]); int[] q4 = [1, 2, 3, 4]; q4[(((a % 4) + 4) % 4 + 256) is byte] *= 5; write(q4[((a % 4) + 4) % 4]); write(\' \');')
     body.append('int vb[(((a % 4) + 4) % 4 + 257) is byte]; write(vb.length); bool vf[(((a % 4) + 4) % 4 + 513) is byte]; write(vf.length); write(\' \');')
     text = '\n    '.join(body)
+    if storage == 'const':
+        # the same applications on compile-time constants (the type checker substitutes `const` scalars and folds the
+        # expressions): one block per value, no run-time operand at all
+        blocks = ['  {\n    const int a = %d;\n    %s\n    writeln();\n  }' % (v, text) for v in (const_vals or CONST_VALS)]
+        return 'empty @is_you(const int[] v) {\n' + '\n'.join(blocks) + '\n}\n'
     if storage == 'global':
         import re
         text = re.sub(r'\ba\b', 'ga', text)
@@ -223,10 +231,49 @@ def plan(tier, seed):
         specs.append({'kind': 'binary', 'word': word, 'ta': 'bool', 'tb': 'bool', 'ops': ['==', '!='], 'positions': POSITIONS, 'tier': tier})
         specs.append({'kind': 'unary', 'word': word, 'tier': tier})
         specs.append({'kind': 'unary', 'word': word, 'tier': tier, 'storage': 'global'})
+        specs.append({'kind': 'unary', 'word': word, 'tier': tier, 'storage': 'const'})
+        specs.append({'kind': 'strings', 'word': word, 'tier': tier})
         for storage in ('global', 'element'):
             specs.append({'kind': 'binary', 'word': word, 'ta': 'int', 'tb': 'int', 'ops': ARITH, 'positions': ['value'], 'tier': tier, 'storage': storage})
             specs.append({'kind': 'binary', 'word': word, 'ta': 'byte', 'tb': 'int', 'ops': CMP, 'positions': ['value', 'branch', 'tid_stop'], 'tier': tier, 'storage': storage})
     return specs
+
+
+STRING_LENGTHS = [0, 1, 2, 255, 256, 257, 511, 512, 768, 1024]
+STRING_PROG = '''
+string gs = "";
+bool truth(string s) { return s is bool; }
+empty @is_you(const string[] w) {
+  for (int i = 0; i < w.length; i += 1) {
+    string s = w[i]; gs = s;
+    write(s.length); write(' '); write(w[i].length); write(' '); write(gs.length); write(' '); write((s is byte[]).length); write(' ');
+    if (s) { write('T'); } else { write('F'); }
+    if (not s) { write('T'); } else { write('F'); }
+    if (w[i]) { write('T'); } else { write('F'); }
+    if (gs) { write('T'); } else { write('F'); }
+    write(s is bool); write(' '); write((s is bool) is int); write(truth(s)); write(' ');
+    write(s and true); write(s or false); write(not s); write(not not s); write(' ');
+    bool keep = s is bool; write(keep); bool[] fa = [s is bool, gs is bool]; write(fa[0] == fa[1]); write(' ');
+    try { !truth_is_defeat(s is bool); write('F'); } undo { write('T'); }
+    try { !truth_is_defeat(not s); write('F'); } stop { write('T'); }
+    int n = 0; while (s and n < 2) { n += 1; } write(n);
+    write((s.length > 0) == (s is bool)); write(s.length == 0 or s);
+    writeln();
+  }
+}
+'''
+
+
+def string_expected():
+    out = bytearray()
+    f = lambda b: b'true' if b else b'false'       # noqa: E731
+    c = lambda b: b'T' if b else b'F'              # noqa: E731
+    for n in STRING_LENGTHS:
+        t = n != 0
+        out += (str(n).encode() + b' ') * 4 + c(t) + c(not t) + c(t) + c(t)
+        out += f(t) + b' ' + (b'1' if t else b'0') + f(t) + b' ' + f(t) + f(t) + f(not t) + f(t) + b' '
+        out += f(t) + f(True) + b' ' + c(t) + c(not t) + (b'2' if t else b'0') + f(True) + f(True) + b'\n'
+    return bytes(out)
 
 
 def run_shard(spec):
@@ -235,9 +282,15 @@ def run_shard(spec):
     sem = Sem(8 * word)
     vals = grid(8 * word, spec['tier'] == 'quick')
     args = [str(v) for v in vals]
-    if spec['kind'] == 'unary':
+    if spec['kind'] == 'strings':
+        # truthiness and length of run-time strings at the sizes where a narrower load would show (multiples of 256)
+        args = [bytes(97 + (k % 26) for k in range(n)).decode() for n in STRING_LENGTHS]
+        vals = STRING_LENGTHS
+        jobs = [('string length and truthiness', STRING_PROG, string_expected(), len(STRING_LENGTHS) * 24)]
+    elif spec['kind'] == 'unary':
         st = spec.get('storage', 'local')
-        jobs = [(f'unary+casts ({st} operands)', unary_program(st), unary_expected(sem, vals), len(vals) * (len(UNARY) + 19))]
+        uvals = CONST_VALS if st == 'const' else vals
+        jobs = [(f'unary+casts ({st} operands)', unary_program(st), unary_expected(sem, uvals), len(uvals) * (len(UNARY) + 19))]
     else:
         jobs = []
         for pos in spec['positions']:
